@@ -218,7 +218,9 @@ def tilt_case(draw, tier="quick"):
             d1 = wl - d0 * dist
             extras.append({"kind": kind, "trace": [t0, t1], "dispersion": [d0, d1]})
     wf_tilt = [ang(0), ang(1)] if draw(st.sampled_from([False, False, True])) else None
-    return {"shape": list(shape), "amp": amp, "opd": opd, "labels": labels, "segmented": segmented,
+    # a steering mirror: a Tilt plane with its own surface (a ramp) that was fit_tilt()-ed, after the aperture
+    steer = {"x": ang(0), "y": ang(1), "a": ang(0), "b": ang(1)} if draw(st.integers(0, 3)) == 0 else None
+    return {"steer": steer, "shape": list(shape), "amp": amp, "opd": opd, "labels": labels, "segmented": segmented,
             "dx": draw(cm.scalar_or_pair(samp["dx"])), "du": list(du), "z": z, "wavelength": wl, "oversample": os_,
             "out_shape": out_shape, "prop_shape": prop_shape, "seg_angles": seg_angles, "ramp_repr": ramp_repr,
             "extras": extras, "wf_tilt": wf_tilt}
@@ -270,6 +272,13 @@ def propagate(case, ctx):
                 raise Skip("ill_conditioned_tilt_fit")
             meta[i] = angles_to_shift(tx, ty, z, du, os_)
     glob = np.zeros(2)
+    steer = case.get("steer")
+    if steer is not None:
+        # its angle is a global tilt; its ramp is optics like any OPD (in the model phasor), and fitting it moves the
+        # evaluated window of every field by the ramp's tilt
+        glob += angles_to_shift(steer["x"], steer["y"], z, du, os_)
+        meta = meta + np.array(angles_to_shift(steer["a"], steer["b"], z, du, os_))
+        opd_total = opd_total + ramp(shape, dx, steer["a"], steer["b"]) * (labels != 0)
     if case["wf_tilt"] is not None:
         glob += angles_to_shift(case["wf_tilt"][0], case["wf_tilt"][1], z, du, os_)
     for e in case["extras"]:
@@ -299,13 +308,13 @@ def propagate(case, ctx):
             "per_axis_dx" if dx[0] != dx[1] else None, f"os:{os_}")
     ctx.nontrivial_if(bool(np.any((frac >= 0.05) & (frac <= 0.95))))
     # --- lentil ---------------------------------------------------------------------------------
-    opd_in = opd_total.copy()
+    opd_in = opd_total.copy() if steer is None else opd_total - ramp(shape, dx, steer["a"], steer["b"]) * (labels != 0)
     with lentil_call("C04.propagate.build", "planes"):
         pupil = lentil.Pupil(amplitude=case["amp"].copy(), opd=opd_in, mask=mask_arg.copy(),
                              pixelscale=cm.as_ps(case["dx"]), focal_length=z)
         if case["ramp_repr"] == "fit":
             fitted = pupil.fit_tilt(inplace=False)
-            if not np.array_equal(pupil.opd, opd_total) or pupil.tilt:
+            if not np.array_equal(pupil.opd, opd_in) or pupil.tilt:
                 raise Violation("C04.fit.copy_mutates", "fit_tilt(inplace=False) changed the original plane")
             pupil = fitted
         elif case["ramp_repr"] == "fit_inplace":
@@ -335,11 +344,16 @@ def propagate(case, ctx):
                 w = w * el
         w_mid = w * pupil
         w = w_mid
+        if steer is not None:
+            ctx.tag("steering_mirror", "steering_mirror:multi_field" if k >= 2 else None)
+            mirror = lentil.Tilt(x=steer["x"], y=steer["y"], amplitude=np.ones(shape), opd=ramp(shape, dx, steer["a"], steer["b"]),
+                                 pixelscale=cm.as_ps(case["dx"])).fit_tilt(inplace=False)
+            w = w * mirror
         for kind, el in elems:
             if kind.endswith("after"):
                 w = w * el
         # the intermediate wavefront is used a second time for the same chain (field-point scans do this)
-        w_again = w_mid
+        w_again = w_mid if steer is None else w_mid * mirror
         for kind, el in elems:
             if kind.endswith("after"):
                 w_again = w_again * el
